@@ -1183,8 +1183,13 @@ META_TEXTS = ["fix(parser)", "v1.2", "[WIP]", "fix(", "C++", "now?", "a|b", "^BU
 
 def gen_text(rng):
     r = rng.random()
-    if r < 0.55:
+    if r < 0.45:
         return rng.choice(META_TEXTS)
+    if r < 0.6:
+        # blanks / line breaks are part of the text
+        base = rng.choice(["BUG-1", "BUG", "fix", "v1.2", "a b"])
+        return rng.choice([" " + base, base + " ", "\t" + base, base + "\n", "\n" + base, base + "\nsecond", base.replace("-", "\n"),
+                           " " + base + " ", base + "  x"])
     alpha = "ab1-" if r < 0.9 else "aB1- \né"
     out = "".join(rng.choice(META) if rng.random() < 0.4 else rng.choice(alpha) for _ in range(rng.randrange(1, 7)))
     return out
@@ -1334,6 +1339,54 @@ def gen_history(rng, n, *, p_merge=0.2, p_root=0.05, p_tag=0.25, p_match=0.35, n
     return {"k": "report", "remote": remote, "text": text, "refs": refs, "commits": commits, "ids": ids}
 
 
+def gen_remerge(rng):
+    """commits of a higher-sorted branch that merge two or three commits of a lower-sorted branch again: a base of
+    matching fixes joined by non-matching merges (every merge has several nearest matching ancestors, the sets of
+    different merges overlap) is the history of the lowest branch; the later branches start with merges of commits
+    that the first traversal has already classified (parents in any order), followed by commits of their own"""
+    text = gen_text(rng) if rng.random() < 0.2 else rng.choice(["BUG-1", "BUG-1", "BUG", "fix"])
+    if not text:
+        text = "BUG-1"
+    commits = [{"p": [], "m": "initial", "t": T0}]
+    build_no = rng.randrange(1, 50)
+
+    def add(ps, msg, tag=False):
+        nonlocal build_no
+        spec = {"p": list(ps), "m": msg, "t": T0 + 60 * len(commits) + rng.randrange(50)}
+        if tag:
+            build_no += rng.randrange(1, 4)
+            spec["tags"] = [["r", build_no, rng.choice([1, 2]), rng.choice([0, 2])]]
+        commits.append(spec)
+        return len(commits) - 1
+    fixes = []
+    for j in range(rng.randrange(2, 5)):
+        par = rng.choice([0] + fixes) if rng.random() < 0.3 else 0
+        fixes.append(add([par], f"{text} fix {j}"))
+    plain = []                       # non-matching commits of the base
+    for j in range(rng.randrange(2, 6)):
+        pool = fixes + plain
+        ps = rng.sample(pool, min(len(pool), rng.choice([1, 2, 2, 3])))
+        plain.append(add(ps, rng.choice(["Merge fixes", "misc", "docs"]), tag=rng.random() < 0.15))
+    tops = [i for i in fixes + plain if not any(i in c["p"] for c in commits)]
+    head0 = add(tops, "Merge everything", tag=rng.random() < 0.5) if len(tops) > 1 or rng.random() < 0.5 else tops[0]
+    names = rng.sample(["release/1.0", "release/1.2", "release/2.0", "release/10.0", "master", "main"], rng.choice([2, 2, 3]))
+    names.sort(key=lambda nm: (nm in ("master", "main"), name_key(nm)))
+    refs = [[f"origin/{names[0]}", head0]]
+    for nm in names[1:]:
+        pool = plain + [head0] + (fixes if rng.random() < 0.3 else [])
+        ps = rng.sample(pool, min(len(pool), rng.choice([2, 2, 3])))
+        cur = add(ps, rng.choice(["Merge again", f"{text} merge"]) if rng.random() < 0.85 else "x", tag=rng.random() < 0.2)
+        for _ in range(rng.choice([0, 1, 2])):
+            ps = [cur] + ([rng.choice(plain)] if rng.random() < 0.4 else [])
+            rng.shuffle(ps)
+            cur = add(ps, rng.choice([f"{text} more", "tweak"]), tag=rng.random() < 0.2)
+        plain.append(cur)
+        refs.append([f"origin/{nm}", cur])
+    rng.shuffle(refs)
+    n = len(commits)
+    return {"k": "report", "remote": "origin", "text": text, "refs": refs, "commits": commits, "ids": rng.sample(range(1, 100000), n)}
+
+
 def gen_session(rng, n=None):
     """one long-lived collection, several reports; between two reports the repository changes: build tags appear
     on existing commits, commits are pushed (heads move forward), branches are merged, heads are reset, branches
@@ -1467,7 +1520,8 @@ def gen_refs_case(rng):
     def other():
         return "".join(rng.choice(HEX) for _ in range(40))
     remote = rng.choice(REMOTES)
-    others = rng.sample([r for r in REMOTES + [remote + "2", remote + "/sub", "zz", remote[:-1] or "o"] if r != remote], rng.choice([0, 1, 2]))
+    others = rng.sample([r for r in REMOTES + [remote + "2", remote + "/sub", "zz", remote[:-1] or "o"]
+                         if r != remote and not r.endswith("/") and "//" not in r], rng.choice([0, 1, 2]))
     shas = [other() for _ in range(rng.randrange(1, 6))]
     branches, seen = [], []
     for r in [remote] * 3 + others:
@@ -1534,7 +1588,7 @@ def gen_cases(rng, tier):
     for _ in range(1500 if big else 250):
         cases.append({"k": "cmp", "a": rng.choice(names), "b": rng.choice(names)})
     # histories
-    nhist = 6000 if big else 380
+    nhist = 6000 if big else 350
     for j in range(nhist):
         r = rng.random()
         if r < 0.15:
@@ -1560,6 +1614,12 @@ def gen_cases(rng, tier):
         if rng.random() < 0.3:
             c = with_disk(rng, c)
         cases.append(c)
+    # merges, in a later branch, of commits that an earlier branch has already classified
+    for _ in range(400 if big else 40):
+        c = gen_remerge(rng)
+        if rng.random() < 0.2:
+            c = with_disk(rng, c)
+        cases.append(c)
     # one collection, several reports on a changing repository
     for _ in range(800 if big else 70):
         c = gen_session(rng)
@@ -1582,6 +1642,8 @@ def search_cases(rng, tier):
         out.append(with_disk(rng, c) if rng.random() < 0.3 else c)
     for _ in range(1500):
         out.append(gen_refs_case(rng))
+    for _ in range(1000):
+        out.append(gen_remerge(rng))
     return out
 
 
@@ -1760,7 +1822,9 @@ RULE = ("generated single-repository histories of 1-45 commits: random DAGs with
         "model-only) the 30-day window; sessions: ONE ReposCollection asked for 2-4 reports while the mock repository changes in "
         "between (build tags appear on existing commits, commits are pushed, branches merged / reset / added / removed, "
         "text changes, sync() on half of the steps), every report compared with the model's report of the state at that "
-        "moment; 30% of the reports and 35% of the sessions are made on a repository whose refs are REAL FILES: the harness "
+        "moment; 40 'remerge' histories (a base of matching fixes joined by non-matching merges is the lowest branch, the later "
+        "branches start with merges -- parents in any order -- of commits the first traversal has already classified); "
+        "30% of the reports and 35% of the sessions are made on a repository whose refs are REAL FILES: the harness "
         "writes a '.git' directory (packed-refs text + loose ref files: refs packed / loose / both with a stale packed value, "
         "annotated tags with '^' peeled lines after and between the branch entries, lightweight tags, comment header or "
         "none, CRLF, tabs, refs of other remotes incl. remotes whose name starts with ours, local branches, stash, notes, "
